@@ -1413,6 +1413,10 @@ impl Engine for C20 {
                                     });
                                 } else if !t0_clean {
                                     st.probe("t2.read-ok.not-judged-t0-already-differs");
+                                } else if refclass::validate(got).is_err() && refclass::parse(got).is_err() {
+                                    // the delivered bytes are not a well-formed class file any more (e.g. a damaged
+                                    // attribute_length that the crate does not look at): a tolerant Ok is outside the property
+                                    st.probe("lenient_accept");
                                 } else {
                                     let at = first_diff(&o, got);
                                     let mut reg = region(&sk, at);
